@@ -7,17 +7,21 @@
 (* Operation code = kind * 10 + line; kinds: 0 trip (create and destroy a   *)
 (* trigger), 1 poll, 2 movetrip (move the trigger, destroy the moved-from   *)
 (* object first, poll, destroy the new owner), 3 publish (write data, trip),*)
-(* 4 consume (poll, read data if tripped), 5 badindex.                      *)
+(* 4 consume (poll, read data if tripped), 5 badindex, 6 massign (a trigger  *)
+(* of line L is move-assigned onto a trigger attached to the other explicit *)
+(* line; the moved-from object is destroyed, then the new owner: only L     *)
+(* trips; the target's previous line is dropped untripped).                 *)
 (***************************************************************************)
 EXTENDS Naturals, Integers, Sequences, FiniteSets, TLC
 CONSTANTS Progs,
           NullCheckInDtor,   \* knob: TRUE = destroying a moved-from trigger is a no-op (code as repaired)
-          MoveEmpties        \* knob: TRUE = the move constructor leaves the source empty (code as read)
+          MoveEmpties,       \* knob: TRUE = the move constructor leaves the source empty (code as read)
+          AssignSwaps        \* knob: FALSE = move assignment transfers the line and empties the source (code as read); TRUE = it swaps
 VARIABLES prog, line, th, began, ev
 vars == <<prog, line, th, began, ev>>
 View == <<prog, line, th, began>>
 NL == 5
-KindName == <<"trip", "poll", "movetrip", "publish", "consume", "badindex">>
+KindName == <<"trip", "poll", "movetrip", "publish", "consume", "badindex", "massign">>
 Name(c) == KindName[(c \div 10) + 1]
 Threads == 1..Len(prog)
 NoEv == [t |-> 0, k |-> "init", o |-> "", i |-> 0, v |-> 0, w |-> 0]
@@ -35,6 +39,7 @@ ResetTo(p) == LET s == Init0(p) IN prog' = s.prog /\ line' = s.line /\ th' = s.t
 Init == \E p \in Progs : InitWith(p)
 L(t) == th[t].op % 10
 K(t) == th[t].op \div 10
+Other(t) == IF L(t) = 1 THEN 2 ELSE 1     \* massign: the line the assignment target was attached to (explicit lines only)
 Do(t, from, line2, th2, began2, e) ==
     /\ th[t].pc = from /\ line' = line2 /\ th' = [th EXCEPT ![t] = th2] /\ began' = began2 /\ ev' = e /\ UNCHANGED prog
 Call(t) ==
@@ -44,13 +49,15 @@ Call(t) ==
              k == c \div 10 IN
          /\ th' = [th EXCEPT ![t] = [@ EXCEPT !.op = c, !.res = 0,
                                             !.pc = CASE k = 0 -> "store" [] k = 1 -> "load" [] k = 2 -> (IF ~NullCheckInDtor /\ MoveEmpties THEN "crashed" ELSE IF MoveEmpties THEN "load" ELSE "mstore")
-                                                     [] k = 3 -> "pw" [] k = 4 -> "load" [] OTHER -> "ret"]]
+                                                     [] k = 3 -> "pw" [] k = 4 -> "load" [] k = 6 -> (IF AssignSwaps THEN "sstore" ELSE "store") [] OTHER -> "ret"]]
          /\ ev' = E(t, "call", OpName(c), 0, 0, 0)
     /\ UNCHANGED <<prog, line, began>>
 Step(t) ==
     \/ Call(t)
     \* knob: the moved-from trigger still holds the line and trips it when destroyed
     \/ Do(t, "mstore", [line EXCEPT ![L(t)] = TRUE], [th[t] EXCEPT !.pc = "load"], began, E(t, "ast", LineName[L(t)], 0, 1, 0))
+    \* knob: after a swapping move assignment the moved-from trigger holds the target's previous line and trips it
+    \/ Do(t, "sstore", [line EXCEPT ![Other(t)] = TRUE], [th[t] EXCEPT !.pc = "store"], began, E(t, "ast", LineName[Other(t)], 0, 1, 0))
     \/ Do(t, "load", line,
           [th[t] EXCEPT !.res = B(line[L(t)]), !.pc = CASE K(t) = 1 -> "ret" [] K(t) = 2 -> "store"
                                                         [] OTHER -> IF line[L(t)] THEN "pr" ELSE "ret"],
